@@ -18,10 +18,14 @@
                                encode pass
      DirectFormatCodec.h       fmtquill::formatted_size (size pass) and format_to_n (encode pass):
                                the only codec that calls libfmt on the caller
-     std/Map.h, UnorderedMap.h every element (std::pair<const Key, T>) is passed to
-                               Codec<std::pair<Key, T>>, i.e. converted to a temporary
+     std/Map.h, UnorderedMap.h two variants, selected by the flag [map_copies] (mc):
+                               false (the code since the repair of finding C11-F1): the size pass and the
+                               encode pass call Codec<Key> / Codec<T> on elem.first / elem.second in place;
+                               true (pinned, the code before): every element (std::pair<const Key, T>) is
+                               passed to Codec<std::pair<Key, T>>, i.e. converted to a temporary
                                std::pair<Key, T> - Key and T are copy-constructed, in the size pass
-                               and again in the encode pass (finding C11-F1)
+                               and again in the encode pass.
+                               The variant that stands for the source tree is TieC11.src_map_copies (T-src).
 
    The allocation sources are exactly the constructors of [alloc_source]; anything an unmodelled
    piece of code allocates is invisible here (that part of C11 is sampled on the binary). *)
@@ -109,44 +113,46 @@ Definition leaf_alloc (encp : bool) (p : ty * val) : list alloc_source :=
 Definition formats_on_caller (t : ty) : bool := match t with Direct => true | _ => false end.
 Definition leaf_fmt (p : ty * val) : list (ty * val) := if formats_on_caller (fst p) then [p] else [].
 
-(* (5): the temporaries of one pass.  A map element VL [k; x] becomes a std::pair<Key, T> (copies of
-   k and x); Codec<std::pair<Key, T>> then visits the copies, which may again hold maps. *)
-Definition pairT (kt vt : ty) (f g : leafF) : leafF := fun v =>
+(* (5): the temporaries of one pass.  [mc] = true (pinned variant): a map element VL [k; x] becomes a
+   std::pair<Key, T> (copies of k and x); Codec<std::pair<Key, T>> then visits the copies, which may
+   again hold maps.  [mc] = false (repaired variant): Codec<Key> / Codec<T> visit elem.first /
+   elem.second where they are; no temporary is made at any depth (AllocProofs.temps_repaired). *)
+Definition pairT (mc : bool) (kt vt : ty) (f g : leafF) : leafF := fun v =>
   match v with
-  | VL l => (match l with [k; x] => [(kt, k); (vt, x)] | _ => [] end) ++ leaf_zip [f; g] l
+  | VL l => (if mc then match l with [k; x] => [(kt, k); (vt, x)] | _ => [] end else []) ++ leaf_zip [f; g] l
   | _ => []
   end.
 
-Fixpoint temps (t : ty) (v : val) {struct t} : list (ty * val) :=
+Fixpoint temps (mc : bool) (t : ty) (v : val) {struct t} : list (ty * val) :=
   match t with
   | Seq _ t' =>
     match v with
-    | VL l => match arith_w t' with Some _ => [] | None => leaf_zip (repeat (temps t') (length l)) l end
+    | VL l => match arith_w t' with Some _ => [] | None => leaf_zip (repeat (temps mc t') (length l)) l end
     | _ => []
     end
   | FwdList t' =>
-    match v with VL l => leaf_zip (repeat (temps t') (length l)) l | _ => [] end
+    match v with VL l => leaf_zip (repeat (temps mc t') (length l)) l | _ => [] end
   | Arr n t' =>
     match v with
-    | VL l => match arith_w t' with Some _ => [] | None => leaf_zip (repeat (temps t') n) l end
+    | VL l => match arith_w t' with Some _ => [] | None => leaf_zip (repeat (temps mc t') n) l end
     | _ => []
     end
-  | Opt t' => match v with VO (Some x) => temps t' x | _ => [] end
-  | Pair a b => pairL (temps a) (temps b) v
-  | Tuple ts => match v with VL l => leaf_zip (map temps ts) l | _ => [] end
+  | Opt t' => match v with VO (Some x) => temps mc t' x | _ => [] end
+  | Pair a b => pairL (temps mc a) (temps mc b) v
+  | Tuple ts => match v with VL l => leaf_zip (map (temps mc) ts) l | _ => [] end
   | MapLike _ kt vt =>
     match v with
     | VL l =>
       match arith_w kt, arith_w vt with
       | Some _, Some _ => []
-      | _, _ => leaf_zip (repeat (pairT kt vt (temps kt) (temps vt)) (length l)) l
+      | _, _ => leaf_zip (repeat (pairT mc kt vt (temps mc kt) (temps mc vt)) (length l)) l
       end
     | _ => []
     end
   | _ => []
   end.
 
-Definition stmt_temps (ts : list ty) (vs : list val) : list (ty * val) := leaf_zip (map temps ts) vs.
+Definition stmt_temps (mc : bool) (ts : list ty) (vs : list val) : list (ty * val) := leaf_zip (map (temps mc) ts) vs.
 
 (* copying a value of this type can never allocate: scalars, pointers, views and aggregates of those *)
 Fixpoint copy_free (t : ty) : bool :=
@@ -162,7 +168,7 @@ Definition temp_alloc (p : ty * val) : list alloc_source :=
   if copy_free (fst p) then [] else [ATempCopy (fst p) (snd p)].
 
 (* every map inside t has arithmetic / enum key and mapped type (not iterated) or a key and a mapped
-   type whose copies cannot allocate *)
+   type whose copies cannot allocate (a hypothesis of the pinned variant only) *)
 Fixpoint map_ok (t : ty) : bool :=
   match t with
   | Seq _ t' | FwdList t' | Arr _ t' | Opt t' => map_ok t'
@@ -173,8 +179,8 @@ Fixpoint map_ok (t : ty) : bool :=
   end.
 
 (* what one pass over the arguments allocates by itself: (4) and (5) *)
-Definition pass_allocs (encp : bool) (ts : list ty) (vs : list val) : list alloc_source :=
-  flat_map (leaf_alloc encp) (stmt_leaves ts vs) ++ flat_map temp_alloc (stmt_temps ts vs).
+Definition pass_allocs (mc encp : bool) (ts : list ty) (vs : list val) : list alloc_source :=
+  flat_map (leaf_alloc encp) (stmt_leaves ts vs) ++ flat_map temp_alloc (stmt_temps mc ts vs).
 
 (* [all_leaf q t]: every leaf type occurring in t satisfies q *)
 Fixpoint all_leaf (q : ty -> bool) (t : ty) : bool :=
@@ -289,18 +295,19 @@ Definition dyn_size (dyn : bool) : N := if dyn then 1 else 0.
 Definition stmt_total (ts : list ty) (vs : list val) (dyn : bool) : N :=
   HEADER_SIZE + fst (size_zip (map size ts) vs) + dyn_size dyn.
 
-(* LoggerImpl::log_statement<immediate_flush = false, has_dynamic_log_level = dyn>(…, args…) *)
-Definition log_step (cf : cfg) (s : tstate) (ts : list ty) (vs : list val) (dyn : bool) : tstate * lout :=
+(* LoggerImpl::log_statement<immediate_flush = false, has_dynamic_log_level = dyn>(…, args…);
+   [mc]: the variant of the map codecs (map_copies) *)
+Definition log_step (mc : bool) (cf : cfg) (s : tstate) (ts : list ty) (vs : list val) (dyn : bool) : tstate * lout :=
   let (s0, a0) := register cf s in
   let '(sz, c1, a1) := size_pass (t_cache s0) ts vs in
   let lv := stmt_leaves ts vs in
-  let a1' := pass_allocs false ts vs in
+  let a1' := pass_allocs mc false ts vs in
   let f1 := flat_map leaf_fmt lv in
   let total := HEADER_SIZE + sz + dyn_size dyn in
   let '(nd, r, a2) := reserve cf (t_node s0) total in
   match r with
   | RGot _ =>
-    let a3 := pass_allocs true ts vs in
+    let a3 := pass_allocs mc true ts vs in
     let q' := commit_write (finish_write ideal (n_q nd) total) in
     ({| t_reg := true; t_cache := c1; t_node := {| n_cap := n_cap nd; n_q := q' |} |},
      {| allocs := a0 ++ a1 ++ a1' ++ a2 ++ a3; fmts := f1 ++ f1; res := LEnqueued; reserved := total |})
@@ -316,8 +323,8 @@ Definition log_step (cf : cfg) (s : tstate) (ts : list ty) (vs : list val) (dyn 
 (* what the backend does with the statement: libfmt runs on every decoded argument (the decoded
    value of a Direct argument is the text made on the caller; its formatter does not run again) *)
 Inductive role := Caller | Backend.
-Definition frontend_fmt_events (cf : cfg) (s : tstate) (ts : list ty) (vs : list val) (dyn : bool) : list (role * ty) :=
-  map (fun p => (Caller, fst p)) (fmts (snd (log_step cf s ts vs dyn))).
+Definition frontend_fmt_events (mc : bool) (cf : cfg) (s : tstate) (ts : list ty) (vs : list val) (dyn : bool) : list (role * ty) :=
+  map (fun p => (Caller, fst p)) (fmts (snd (log_step mc cf s ts vs dyn))).
 Definition backend_fmt_events (ts : list ty) : list (role * ty) := map (fun t => (Backend, t)) ts.
 
 (* ---------------------------------------------------------------- the other operations of a thread *)
@@ -332,10 +339,10 @@ Definition done (a : list alloc_source) : lout := {| allocs := a; fmts := []; re
 Definition drain_q (q : bq) : bq :=
   {| wpos := wpos q; rcache := rcache q; rpos := wpos q; wcache := wpos q; aw := aw q; ar := wpos q; recs := []; dirty := false |}.
 
-Definition t_step (cf : cfg) (s : tstate) (o : top) : tstate * lout :=
+Definition t_step (mc : bool) (cf : cfg) (s : tstate) (o : top) : tstate * lout :=
   match o with
   | OPre => let (s1, a) := register cf s in (s1, done a)
-  | OLog ts vs dyn => log_step cf s ts vs dyn
+  | OLog ts vs dyn => log_step mc cf s ts vs dyn
   | OShrink cap =>
     if c_unbounded cf then
       let (s1, a) := register cf s in
@@ -351,14 +358,14 @@ Definition t_step (cf : cfg) (s : tstate) (o : top) : tstate * lout :=
     else (s, done [])
   end.
 
-Fixpoint t_run (cf : cfg) (s : tstate) (ops : list top) : tstate * list lout :=
+Fixpoint t_run (mc : bool) (cf : cfg) (s : tstate) (ops : list top) : tstate * list lout :=
   match ops with
   | [] => (s, [])
   | o :: ops' =>
-    let (s1, out) := t_step cf s o in
-    let (s2, outs) := t_run cf s1 ops' in
+    let (s1, out) := t_step mc cf s o in
+    let (s2, outs) := t_run mc cf s1 ops' in
     (s2, out :: outs)
   end.
 
-(* states a thread can be in *)
-Definition reachable (cf : cfg) (s : tstate) : Prop := exists ops, s = fst (t_run cf (t_init cf) ops).
+(* states a thread can be in (the state does not depend on the variant: AllocProofs.t_run_state_variant) *)
+Definition reachable (mc : bool) (cf : cfg) (s : tstate) : Prop := exists ops, s = fst (t_run mc cf (t_init cf) ops).
